@@ -386,8 +386,44 @@ def operand_closed(P, res):
     res.floor("OPERAND-CLOSED", "parse_expression call sites in operand parsers", n_sites, 17)
 
 
+LINE_TESTS_OK = {
+    "parser::parse_comma_separated_exprs": "error recovery only: after the 'expected , or )' diagnostic has been pushed for a missing comma, line positions choose between 'forgotten comma' (continue) and 'forgotten parenthesis' (stop); a program without parse errors never reaches it",
+    "parser::parse_return": "`return` followed by a line break returns nothing: the expression on the next line is a new statement (documented)",
+}
+
+
+def layout_free(P, res, rule="LAYOUT-FREE"):
+    """how a sequence of tokens groups must not depend on where its line breaks are: a chain wrapped after an operator
+    (`a -` newline `b -` newline `c`) is the same chain. Only the reviewed parser functions may branch on line numbers."""
+    import json as _json
+    from .. import dflow as _D
+    n = 0
+    for p_, f in sorted(P.funcs.items()):
+        if not p_.startswith("parser::") or p_.startswith("parser::lex") or p_.startswith("parser::position") or p_.startswith("parser::diagnostics"):
+            continue
+        hits = []
+        for sw in _D.bool_switches(f):
+            r = sw["root"]
+            if r[0] == "rv" and r[3]["rv"]["k"] == "binop":
+                for k_ in ("a", "b"):
+                    rr = f.root_of(r[3]["rv"][k_], through_named=True)
+                    if rr[0] == "place" and any(x in ("line_number", "end_line_number") for x in f.field_path(rr[1])):
+                        hits.append(sw)
+                        break
+        if not hits:
+            continue
+        n += 1
+        if p_ in LINE_TESTS_OK:
+            res.ok(rule, "%s branches on line numbers (reviewed: %s)" % (p_, LINE_TESTS_OK[p_][:60]))
+        else:
+            res.bad(rule, "%s # branches on line numbers" % p_, "%s decides how to parse by comparing line numbers: the same tokens group differently (or are rejected) depending "
+                    "on where the line breaks fall, e.g. a chain wrapped after an operator" % p_, f.loc(f.blocks[hits[0]["bb"]]["term"].get("span")))
+    res.floor(rule, "parser functions that branch on line numbers", n, 2)
+
+
 def run(ctx, res):
     sh = ctx.shape
+    layout_free(ctx.P, res)
     # explicit parentheses override the grouping only if the inner chain has run when the parenthesised expression counts as done
     from . import c27 as _c27
     _c27.done_means_value(ctx.P, res)
